@@ -235,7 +235,13 @@ def encode_message(m):
     codec = m["attributes"] & 0x07
     if m.get("inner") is not None and value is None:
         inner_bytes = encode_message_set(m["inner"])
-        if codec == CODEC_GZIP:
+        if codec == CODEC_GZIP and m.get("members", 1) > 1:
+            # a multi-member gzip stream (RFC 1952 section 2.2: "a gzip file consists of a series of members"):
+            # the inner message set cut into `members` pieces, each compressed on its own
+            k = m["members"]
+            cuts = [len(inner_bytes) * i // k for i in range(k + 1)]
+            value = b"".join(gzip_compress(inner_bytes[cuts[i]:cuts[i + 1]]) for i in range(k))
+        elif codec == CODEC_GZIP:
             value = gzip_compress(inner_bytes)
         elif codec == CODEC_SNAPPY:
             value = snappy_compress(inner_bytes)
